@@ -34,8 +34,8 @@ func runStoreLag(args []string) error {
 	for _, sso := range []bool{false, true} {
 		for _, inact := range []time.Duration{0, 10 * time.Minute} {
 			for _, tau := range []int64{600, 7200} { // token lifetime shorter / longer than what is left of the session
-				for _, after := range []string{"end", "inactivity"} {
-					if after == "inactivity" && inact == 0 {
+				for _, after := range []string{"end", "inactivity", "end-idle"} {
+					if after != "end" && inact == 0 {
 						continue
 					}
 					synctest.Run(func() {
@@ -67,6 +67,9 @@ func runStoreLag(args []string) error {
 								s.gredis.syncTime()
 								s.mr.SetTTL(key, 24*time.Hour)
 							}
+							time.Sleep(time.Until(s.start.Add(maxlife)) + 2*time.Second)
+						} else if after == "end-idle" {
+							// never used again: past the inactivity deadline AND past the end
 							time.Sleep(time.Until(s.start.Add(maxlife)) + 2*time.Second)
 						} else {
 							time.Sleep(inact + 2*time.Second)
